@@ -1,4 +1,44 @@
-(* placeholder *)
-From GR Require Import Base.
-Theorem C15_placeholder : True. Proof. exact I. Qed.
-Print Assumptions C15_placeholder.
+(* C15 — Start / Stop / Restart leave the server in the state the call promises.  Property theorems only.
+   Lifecycle.v is a transition system whose labels are the atomic steps of the API thread, of each accept loop and of
+   each connection goroutine between the synchronisation points of redis/server.go; a schedule is ANY list of labels
+   (disabled ones are skipped), so "for all schedules" is a universal quantifier over `list label`.  Runtime half
+   (real sockets, ports bindable again, goroutine counts) is observed by the harness and compared with the model's
+   executable scheduler `life_model`; see DESIGN 4/C15. *)
+From Coq Require Import List.
+Import ListNotations.
+From GR Require Import Lifecycle LifecycleFacts LifecycleThms.
+
+(* (0) the invariant holds in every state reachable from a fresh server under every schedule, any number of clients *)
+Theorem C15_invariant_all_schedules : forall p t ls, Inv (lrun (init p t) ls).
+Proof. exact reachable_inv. Qed.
+Print Assumptions C15_invariant_all_schedules.
+
+(* (1) after Start (or Restart) has returned and until Stop begins, every enabled port has an open listener held by an
+   accept loop that has not returned: a client arriving on it is accepted *)
+Theorem C15_running_serves : forall s, Inv s -> pc s = PRunning ->
+  (cfg_plain s = true -> exists l, fld_plain s = Some l /\ lstep s (LAcceptOk l) <> None) /\
+  (cfg_tls s = true -> exists l, fld_tls s = Some l /\ lstep s (LAcceptOk l) <> None).
+Proof. exact running_serves. Qed.
+Print Assumptions C15_running_serves.
+
+(* (2) at the moment Stop returns: no listener is open (the ports can be bound again), the registry is empty, every
+   accept loop has returned, every connection goroutine has returned and its socket is closed *)
+Theorem C15_stop_returns_clean : forall s s', Inv s -> lstep s LStopWaitConns = Some s' ->
+  pc s' = PStopped /\ open_lis s' = [] /\ registry s' = [] /\ (forall a, In a (loops s') -> al_done a = true) /\
+  (forall c, In c (conns s') -> ct_st c = CDone /\ ct_open c = false).
+Proof. exact stop_returns_clean. Qed.
+Print Assumptions C15_stop_returns_clean.
+
+(* (3) while running (indeed everywhere outside Stop's close phase) the registry is exactly the set of connections
+   between their registration and their deregistration *)
+Theorem C15_registry_exact : forall s, Inv s -> pc s <> PStop4 ->
+  forall id, In id (registry s) <-> exists c, In c (conns s) /\ ct_id c = id /\ ct_st c = CRegistered.
+Proof. exact registry_exact. Qed.
+Print Assumptions C15_registry_exact.
+
+Example C15_ex :
+  let ls := [LStartBegin; LStartOpen; LStartSpawnPlain; LStartSpawnTLS; LAcceptOk 0; LAcceptOk 1; LAdmit 2; LHandshakeFail 3;
+             LStopBegin; LStopCloseLis; LAcceptFail 0; LAcceptFail 1; LStopWaitAccept; LStopCloseConns; LFinish 2; LStopWaitConns] in
+  let s := lrun (init true true) ls in
+  pc s = PStopped /\ registry s = [] /\ open_lis s = [] /\ conn_wg s = 0 /\ accept_wg s = 0 /\ length (conns s) = 2.
+Proof. exact lifecycle_ex. Qed.
